@@ -1402,13 +1402,15 @@ HTInew_dd_block(filerec_t *file_rec)
 
     if (file_rec->cache)                 /* if we are caching, wait to update previous DD block */
         file_rec->dirty |= DDLIST_DIRTY; /* indicate file needs to be flushed */
-    else {
-        p = ddhead;
-        INT16ENCODE(p, block->ndds);
-        INT32ENCODE(p, (int32)0);
-        if (HP_write(file_rec, ddhead, NDDS_SZ + OFFSET_SZ) == FAIL)
-            HGOTO_ERROR(DFE_WRITEERROR, FAIL);
-    } /* end else */
+
+    /* Write the header of the new block, whether DDs are cached or not: the
+       block must be a valid (empty) DD block in the file before anything
+       links to it */
+    p = ddhead;
+    INT16ENCODE(p, block->ndds);
+    INT32ENCODE(p, (int32)0);
+    if (HP_write(file_rec, ddhead, NDDS_SZ + OFFSET_SZ) == FAIL)
+        HGOTO_ERROR(DFE_WRITEERROR, FAIL);
 
     /* set up the dd list of this dd block and put it in the file
      after the dd block header */
@@ -1424,8 +1426,11 @@ HTInew_dd_block(filerec_t *file_rec)
     list[0].blk    = block;
     HDmemfill(&list[1], &list[0], sizeof(dd_t), (uint32)ndds - 1);
 
-    if (file_rec->cache != 0) { /* if we are caching, wait to update previous DD block */
-        uint8 *tbuf;            /* temporary buffer */
+    /* Put the NIL DDs in the file after the header, whether DDs are cached or
+       not: without caching only individual DDs are written later on, and the
+       slots never used would be left as whatever the file holds there */
+    {
+        uint8 *tbuf; /* temporary buffer */
 
         tbuf = (uint8 *)malloc((size_t)(ndds * DD_SZ));
         if (tbuf == (uint8 *)NULL)
